@@ -83,6 +83,9 @@ def run(ctx):
     code = ctx.tlc("C15MC.tla", "C15_code.cfg", workers=4, timeout=300)
     if code.ok or not code.violated:
         raise H.Infra("FractalHeap with CODE_CapacityIgnoresPrefix=TRUE no longer yields a counterexample")
+    code2 = ctx.tlc("C15MC.tla", "C15_code_offwidth.cfg", workers=4, timeout=300)
+    if code2.ok or not code2.violated:
+        raise H.Infra("FractalHeap with an id offset field narrower than the block no longer yields a counterexample")
     lines, gr = ctx.generate("C15Gen.tla", "C15_gen_thorough.cfg" if thorough else "C15_gen_quick.cfg")
     cases = [json.loads(x) for x in lines]
     ngen = len(cases)
